@@ -15,7 +15,7 @@ const (
 )
 
 const (
-	faultNone = iota
+	faultNone       = iota
 	faultWrite      // WriteAt fails before any effect
 	faultShortWrite // WriteAt writes half of the buffer, then fails
 	faultSync
@@ -41,11 +41,11 @@ type memFile struct {
 	ops    []memOp
 	record bool
 
-	locked   bool
-	closed   bool
-	mmaps    int
-	nlock    int
-	nunlock  int
+	locked  bool
+	closed  bool
+	mmaps   int
+	nlock   int
+	nunlock int
 
 	// fault injection: the faultOrd-th call (0-based) of kind faultKind fails,
 	// as do the following faultBurst-1 calls of that kind.
